@@ -24,6 +24,8 @@ func init() {
 			for _, v := range ref.RpmVectors {
 				g = append(g, v[0], v[1])
 			}
+			m := gen.Magnitudes
+			g = gen.Alt(g, gen.Seq(gen.Lit("1.", "1-", "1a", "1:1.", "1~", "1^"), m), gen.Seq(m, gen.Lit(":1", "", "-1", ".1", "a")))
 			return g
 		},
 		Valid: ref.RpmValid,
